@@ -4,7 +4,7 @@
                            form: 0 literal | 1 i64 | 2 u64 | 3 i128 | 4 u128 | 5,6 float (not modelled) *)
 From Coq Require Import String.
 From MJ Require Import Common.Base.
-From MJ Require Import C08.Model C08.Spec.
+From MJ Require Import C08.Model C08.Spec C08.FloatModel.
 
 Definition form_of (z : Z) : option form :=
   match z with 0 => Some FLit | 1 => Some FI64 | 2 => Some FU64 | 3 => Some FI128 | 4 => Some FU128 | _ => None end.
@@ -30,9 +30,35 @@ Definition enc_cmp (o : outcome (bool * bool * bool)) : list Z :=
   | OutOfGas => [8]
   end.
 
+(* float // and %: an operand is a float (by bit pattern) or an integer in any form, converted with `as f64` *)
+Definition float_operand (f v : Z) : option (outcome b64) :=
+  if (f =? 5) || (f =? 6) then Some (Ok (of_bits v))
+  else match form_of f with
+       | Some fi => if expressible fi v then
+                      Some (if negb (syntax_ok fi v) then Err E_SyntaxError
+                            else bind (operand fi v) (fun x => Ok (of_int (num_val x))))
+                    else None
+       | None => None
+       end.
+Definition is_syntax_err {A} (o : outcome A) : bool := match o with Err c => c =? E_SyntaxError | _ => false end.
+Definition run_float (o fa a fb b : Z) : list Z :=
+  match float_operand fa a, float_operand fb b with
+  | Some x, Some y =>
+      if is_syntax_err x || is_syntax_err y then [1; E_SyntaxError] else
+      match bind x (fun x => bind y (fun y => Ok (if o =? 3 then Bdiv_euclid x y else Brem_euclid x y))) with
+      | Ok r => [4; to_bits r]
+      | Err c => [1; c]
+      | Panic => [2]
+      | OutOfGas => [8]
+      end
+  | _, _ => [9]
+  end.
+Definition is_float_form (f : Z) : bool := (f =? 5) || (f =? 6).
+
 Definition run_with (bin : binop -> num -> num -> outcome num) (exactf : num -> option Z) (inp : list Z) : list Z :=
   match inp with
   | o :: fa :: a :: fb :: b :: _ =>
+      if ((o =? 3) || (o =? 4)) && (is_float_form fa || is_float_form fb) then run_float o fa a fb b else
       match form_of fa, (if o =? 6 then Some FLit else form_of fb) with
       | Some fa, Some fb =>
           if negb (expressible fa a && ((o =? 6) || expressible fb b)) then [9]
@@ -61,7 +87,7 @@ Definition run_before_fix := run_with model_binop_before_fix as_f64_exact_before
 (* ---- the oracle: is [out] an acceptable answer for the case? ----
    [1] yes | [0; reason] no (2 crash, 4 wrong integer, 5 error where the exact result is due,
    6 answer of another kind) | [3; id] the case is one of the listed known findings
-   (1: unary minus of 2^127, 2: ** with |base| <= 1 and an exponent beyond u32) | [7] not judged here *)
+   (1: unary minus of 2^127) | [7] not judged here *)
 Definition got_of (out : list Z) : option (option Z) :=
   match out with
   | [0; r] => Some (Some r)
@@ -77,11 +103,7 @@ Definition verdict (operands_small : bool) (want : option Z) (out : list Z) : li
   end.
 Definition is_lit (f : form) : bool := match f with FLit => true | _ => false end.
 Definition known_case (o : Z) (fa : form) (a : Z) (fb : form) (b : Z) : Z :=
-  if known_operand (is_lit fa) a
-     || ((o <? 6) || (o =? 7)) && known_operand (is_lit fb) b
-     || (o =? 6) && known_neg a then 1
-  else if (o =? 5) && known_pow a b then 2
-  else 0.
+  if known (o =? 6) (is_lit fa) a (is_lit fb) b then 1 else 0.
 (* integer/float comparison: exact comparison of the integer with the rational the float denotes *)
 Definition judge_float_cmp (use_known : bool) (o : Z) (fi : form) (z : Z) (ff bits : Z) (int_first : bool) (out : list Z) : list Z :=
   if negb ((o =? 7) && ((ff =? 5) || (ff =? 6)) && expressible fi z && denotable z) then [7]
